@@ -140,7 +140,7 @@ Example c13_inbound_request_in_front_of_a_reply :
   | Some s => tpc (thrs s 1) = S5 /\ hand (thrs s 1) = Some 0 /\ tpc (thrs s 0) = Returned /\ ready s 1 = true /\ tpc (thrs s 7) = LoopTest /\ dispatched s = [1]
   | None => False
   end.
-Proof. vm_compute. repeat split. Qed.
+Proof. cbv. repeat split. Qed.
 (* non-vacuity: the stalled state of c13_completion_refuted_without_deadline is not a trap either - W's own poll timeout gets it out *)
 
 Theorem c13_program_is_current : Gen_serve.serve_prog = Serve.serve_prog /\ Gen_serve.call_sets_obj_before_ready = true
